@@ -19,7 +19,7 @@ MANIFEST = {
           'destinations x RF 1/2 x every name over {a,b,x,.} up to length 5 (6), through both aggregated routers; the '
           'reference matches patterns without regular expressions and hashes the aggregate names with the plain router.',
   'note': 'Plain hash routing itself is decided by C05/C06. Rule sets in which an input pattern uses regex metacharacters '
-          'other than the documented ones are outside the pool.',
+          'other than the documented ones are outside the pool. The relay\'s real start-up is asked which rules file each method is handed; destination lists in several spellings; rule pairs sharing an input pattern with the name memo on.',
 }
 
 DESTS = ['10.0.0.1:2004:a', '10.0.0.2:2004:b', '10.0.0.3:2004:c']
